@@ -319,6 +319,58 @@ func MontStructured(m *big.Int) []V {
 		}
 	}
 
+	for _, r := range OneAdjacentStored(m) {
+		out = append(out, V{oracle.FromMont(oracle.Limbs(r), m), "stored-one-adjacent"})
+	}
+
+	for _, v := range InverseStructured(m) {
+		out = append(out, V{v, "inverse-structured"})
+	}
+
+	return out
+}
+
+// OneAdjacentStored returns stored values that equal the stored form of 1 (R mod m) in three of the four limbs: what an
+// "is it one" test that drops, duplicates or mis-indexes a limb takes for 1.
+func OneAdjacentStored(m *big.Int) []*big.Int {
+	oneM := oracle.ToMont(bi(1), m)
+
+	var out []*big.Int
+
+	for i := 0; i < 4; i++ {
+		for _, d := range []uint64{1, 2, 1 << 32, 1 << 63, ^uint64(0), 0x5555555555555555} {
+			l := oneM
+			l[i] ^= d
+
+			if x := oracle.FromLimbs(l); x.Cmp(m) < 0 && x.Sign() != 0 {
+				out = append(out, x)
+			}
+		}
+	}
+
+	return out
+}
+
+// InverseStructured returns values whose modular INVERSE is structured: small, a power of two, with zero top limbs (as a
+// canonical integer and as stored limbs). An inversion that assembles its result limb by limb, or reads it back from a
+// variable-length big integer, fails on the result, not on the operand.
+func InverseStructured(m *big.Int) []*big.Int {
+	var out []*big.Int
+
+	add := func(t *big.Int) {
+		t = oracle.Mod(t, m)
+		if t.Sign() == 0 {
+			return
+		}
+
+		out = append(out, new(big.Int).ModInverse(t, m))                                      // inverse is t
+		out = append(out, new(big.Int).ModInverse(oracle.FromMont(oracle.Limbs(t), m), m)) // stored form of the inverse is t
+	}
+
+	for _, t := range []*big.Int{bi(2), bi(3), pow2(32), pow2(63), addI(pow2(64), -1), pow2(64), addI(pow2(64), 1), pow2(127), addI(pow2(128), -1), pow2(128), pow2(191), addI(pow2(192), -1), pow2(192), pow2(255), addI(m, -2)} {
+		add(t)
+	}
+
 	return out
 }
 
